@@ -105,54 +105,6 @@ def hb(fx, p):
     return INL.inlined(fx, p, lambda q: INL.is_private_helper(fx, q)) if p else None
 
 
-def rule_loop_bounds(fx, rep):
-    """Every loop indexing points[i] / scalars[i] is bounded by the min-length local, and a
-    bucket is written only under bucket_index > 0."""
-    for g, aff in AFFS:
-        for nm in ('sum_of_products_pippinger', 'sum_of_products_precomp_256'):
-            p = fx.impl_method('CurveAffine', aff, nm)
-            b = hb(fx, p)
-            if b is None:
-                rep.fail('DEP', '%s:%s:anchor' % (g, nm), 'not found')
-                continue
-            rep.fn(p)
-            o = Origin(b)
-            r = Resolver(b)
-            # locals defined as len() of a parameter slice
-            bad = []
-            n_loops = 0
-            for blk in b.blocks:
-                for s in blk['stmts']:
-                    if s['k'] == 'assign' and s['rv']['k'] == 'agg' and s['rv']['kind'].get('adt', '').endswith('ops::Range') and len(s['rv']['ops']) == 2:
-                        lo = strip(o.operand(s['rv']['ops'][0]))
-                        hi = strip(o.operand(s['rv']['ops'][1]))
-                        if lo[0] == 'const' and lo[1].get('v') == 0 and hi[0] == 'phi':
-                            # hi must be the min-length phi: defined from both params' lengths
-                            srcs = set()
-                            for d in r.d.defs[hi[1]]:
-                                if d[0] == 'assign' and d[3]['rv']['k'] == 'use':
-                                    tt = strip(o.operand(d[3]['rv']['op']))
-                                    if tt[0] == 'unop' and tt[1] == 'PtrMetadata':
-                                        srcs.add(strip(tt[2]))
-                                    elif tt[0] == 'call' and tt[1].get('name') == 'len':
-                                        srcs.add(strip(tt[2][0]))
-                                elif d[0] == 'call' and (callee(d[2]) or {}).get('name') == 'len':
-                                    srcs.add(strip(o.operand(d[2]['args'][0])))
-                            if srcs == {('param', 1), ('param', 2)}:
-                                n_loops += 1
-                            elif srcs:
-                                bad.append('a component loop at %s is bounded by the length of %s only' % (s['span'], sorted(srcs, key=str)))
-                        elif lo[0] == 'const' and lo[1].get('v') == 0 and ((hi[0] == 'unop' and hi[1] == 'PtrMetadata') or (hi[0] == 'call' and hi[1] and hi[1].get('name') == 'len')):
-                            which = strip(hi[2] if hi[0] == 'unop' else hi[2][0])
-                            if which in (('param', 1), ('param', 2)):
-                                bad.append('a component loop at %s runs to the length of one list (%s) instead of the minimum of both' % (s['span'], term_str(which)))
-            want = 3 if nm == 'sum_of_products_pippinger' else 1
-            rep.check(not bad and n_loops >= want, 'DEP', '%s:%s:loops-bounded-by-min' % (g, nm), '%d component loops, all 0..min(#points, #scalars)' % n_loops,
-                      '; '.join(bad) or 'only %d min-bounded component loops (expected %d)' % (n_loops, want), fx.fn(p)['span'], construct=p)
-            if nm != 'sum_of_products_pippinger':
-                continue
-
-
 def rule_precomp_msm(fx, rep):
     """sum_of_products_precomp_256 for concrete list lengths (all scalar values symbolic)."""
     for g, aff in AFFS:
